@@ -5,7 +5,7 @@ executes and its C generator prints) and emits, per unit,
   * a function form   Definition f (x0_0 ... : R) : list R := let v1 := ... in [outs]
   * a wp form         Definition f_wp (x0_0 ...) (P : list R -> Prop) : Prop := let ... in P [outs]
   * for units of >= WPE_MIN instructions, an equational wp form
-                      Definition f_wpe (x0_0 ...) (P : list R -> Prop) : Prop := forall v, Eqn v e -> ... -> P [outs]
+                      Definition f_wpe (x0_0 ...) (P : list R -> Prop) : Prop := forall v.. : R, Eqn v e -> ... -> P [outs]
   * a list wrapper    Definition f_v (a0 a1 ... : list R) : list R := f (nth 0 a0 0) ...
   * named output projections  Definition f__<out> (r : list R) : list R := [nth k r 0; ...]
 Outputs are dense, column-major, all outputs concatenated; structural zeros are 0.
@@ -240,7 +240,8 @@ class Unit:
         s.append("Definition %s_wp %s (P : list R -> Prop) : Prop :=\n%s." % (n, self.binder(), self.body("P " + outlist)))
         if self.n_instr >= WPE_MIN:
             # equational form of the same let-chain (large units: the kernel never has to zeta-expand shared subterms)
-            lines = ["  forall %s, Eqn %s %s ->" % (v, v, e) for v, e in self.lets] + ["  P " + outlist]
+            # (binders first, then the equations: nesting one forall per instruction costs Coq cubic time)
+            lines = ["  forall %s : R," % " ".join(v for v, _ in self.lets)] + ["  Eqn %s %s ->" % (v, e) for v, e in self.lets] + ["  P " + outlist]
             s.append("Definition %s_wpe %s (P : list R -> Prop) : Prop :=\n%s." % (n, self.binder(), "\n".join(lines)))
         # list wrapper
         lst = " ".join("a%d" % i for i in range(len(self.in_nnz)))
